@@ -72,9 +72,11 @@ func validateImportBody(body Body) error {
 func validateBlipBody(ctx context.Context, rawBody []byte, doc *Document) error {
 	// Prevent disallowed internal properties from being used
 	disallowed := []string{base.SyncPropertyName, BodyId, BodyRev, BodyDeleted, BodyRevisions}
+	// A property name can be spelled with JSON escapes ("\u005fid"): the raw-bytes shortcut is only valid without any
+	mayBeEscaped := bytes.IndexByte(rawBody, '\\') >= 0
 	for _, prop := range disallowed {
 		// Only unmarshal if raw body contains the disallowed property
-		if bytes.Contains(rawBody, []byte(`"`+prop+`"`)) {
+		if mayBeEscaped || bytes.Contains(rawBody, []byte(`"`+prop+`"`)) {
 			if _, ok := doc.Body(ctx)[prop]; ok {
 				return base.NewHTTPError(http.StatusNotFound, "top-level property '"+prop+"' is a reserved internal property")
 			}
